@@ -45,6 +45,9 @@ def _strategy(draw):
     sizes = [draw(st.integers(1, 6)) for _ in range(nmol)]
     types = [[draw(st.integers(0, 2)) for _ in range(s)] for s in sizes]
     box = [draw(st.sampled_from([3.0, 3.7, 4.5, 6.0])) for _ in range(3)]
+    if draw(st.integers(0, 3)) == 0:
+        # a thin box: one edge between the cut-off and twice the cut-off
+        box[draw(st.integers(0, 2))] = draw(st.sampled_from([1.2, 1.5]))
     large = draw(st.integers(0, 11)) == 0
     ops = []
     if large:
@@ -159,12 +162,12 @@ def check(spec, ctx):
         try:
             other = {k: (v[0] * 1.37, v[1] * 2.0) for k, v in inter.items()}
             pos0 = np.ones((3, 3)) * np.inf
-            pos0[0] = np.array([1.0, 1.0, 1.0])
-            pos0[1] = np.array([1.5, 1.0, 1.0])
+            pos0[0] = box * 0.30
+            pos0[1] = box * 0.30 + np.array([0.0, 0.5, 0.0])
             early = NonBondEngine(pos0, {(0, 0): 0, (0, 1): 1, (1, 0): 2}, ["S0", "S1", "S2"], other, None, None,
                                   cut_off * 1.37, box)
-            early.compute_force_point(np.array([1.2, 1.4, 1.0]), 1, 0, exclude=[])
-            early.compute_force_point(np.array([1.3, 0.6, 1.0]), 0, 0, exclude=[])
+            early.compute_force_point(box * 0.30 + np.array([0.0, 0.2, 0.4]), 1, 0, exclude=[])
+            early.compute_force_point(box * 0.30 + np.array([0.0, -0.3, 0.3]), 0, 0, exclude=[])
         except Exception as err:
             raise crash("construct:crash", err)
         ctx.label("after_another_engine_with_other_sizes")
@@ -356,7 +359,10 @@ def check(spec, ctx):
                         raise Violation("force:value", f"step {step}: point {point} mol {mol} node {node} "
                                                        f"exclude {exclude}: {got_vec} expected {want}")
                     num = numeric_force(point, mol, node, {(mol, n) for n in exclude})
-                    if np.linalg.norm(num - got_vec) > 1e-4 * max(1.0, float(np.linalg.norm(num))):
+                    # (in a box thinner than twice the cut-off a neighbour may sit half a box edge away, where the
+                    # nearest image changes and the energy has a kink: the gradient comparison is left out there)
+                    if np.min(box) >= 2 * cut_off and \
+                            np.linalg.norm(num - got_vec) > 1e-4 * max(1.0, float(np.linalg.norm(num))):
                         raise Violation("force:not_gradient", f"step {step}: {got_vec} vs numerical -grad {num}")
         except Violation:
             raise
